@@ -107,28 +107,8 @@ def run(ctx, host=None):
     pol = write_policy(depth=5)
 
     # R1o: ownership scan over every function of the package
-    nscan = 0
-    for f in prog.all_functions():
-        if isinstance(f.node, ast.Lambda):
-            continue
-        fr = K.top_frame(f)
-        for n in walk_local(f.node):
-            if not isinstance(n, ast.Call):
-                continue
-            cal = K.resolve_call(n, fr)
-            if cal.kind == 'external' and cal.target in ('builtins.open', 'io.open'):
-                hk = K.kind(n, fr)
-                nscan += 1
-                if hk[0] == 'handle' and any(c in (hk[2] or '') for c in 'wax+') and ('loose' in areas(K, hk[1])):
-                    chk.bad(R1o, f.qualname, norm(n), 'a file under loose/ is opened for writing: loose objects must only appear by '
-                            'atomic rename of a complete sandbox file', where=f'{f.module.relpath}:{n.lineno}')
-            elif cal.kind == 'method' and cal.name in ('write_bytes', 'write_text', 'touch', 'open'):
-                rk = K.kind(cal.recv, fr)
-                if 'loose' in areas(K, rk) and (cal.name != 'open' or any(c in str(K.kind(n, fr)[2:3]) for c in 'wax+')):
-                    chk.bad(R1o, f.qualname, norm(n), 'a file under loose/ is written in place', where=f'{f.module.relpath}:{n.lineno}')
-    chk.require(nscan >= 10, f'expected at least 10 open() sites in the package, found {nscan}')
-    if not [f for f in chk.findings if f.rule == R1o]:
-        chk.ok(R1o, '<package>', f'{nscan} open() sites classified', detail='none opens a path under loose/ for writing', evals=nscan)
+    from .common import loose_write_ownership
+    loose_write_ownership(ctx, chk, R1o)
 
     # R1
     q = 'container:Container.add_streamed_object'
@@ -140,7 +120,8 @@ def run(ctx, host=None):
         chk.ok(R1, q, 'ObjectWriter inlined', detail=f'{m.publishes} publish site(s): all with the handle flushed and closed')
 
     # R2
-    entries = sorted(f.qualname for f in prog.all_functions() if f.cls is K.container and 'do_fsync' in f.params)
+    from .common import pack_writing_entries
+    entries = pack_writing_entries(ctx)
     chk.require(len(entries) >= 5, f'expected >= 5 pack-writing entry points, found {entries}')
     for q in entries:
         def mk(g, consts, _q=q):
